@@ -28,6 +28,7 @@ import Mathlib.Tactic.LinearCombination
 import SqiModel.HeurEnc
 import SqiModel.SignBook
 import SqiProps.C04
+import SqiProps.C02
 
 namespace SqiProps.C05
 open SqiModel.HeurEnc
@@ -161,6 +162,32 @@ def encodeFull (f a : Nat) (M : Mat) (x : Int) : Option Enc := if hintB M = 0 th
 
 /-- **hint_b_one_unencoded** — what the code does on a matrix violating the invariant -/
 theorem hint_b_one_unencoded : hintB ⟨2, 1, 1, 0⟩ = 1 ∧ encodeFull 248 122 ⟨2, 1, 1, 0⟩ 1 = none := by decide
+
+/-! ## composition with the verifier's decision model (a7, SqiProps/C02.lean)
+
+`rawOfEnc` packs what the heuristic signer emits for a response matrix M with the invariants (`encode`, `hintB M`) into
+the raw signature the decision model reads.  Composing `hint_b_zero_of_invariant` (signer side) with `accept_iff_heur`
+and `challEqHeur_hintB0` (verifier side): an honest heuristic signature is accepted iff the range guard and the kernel /
+chain checks pass and the recomputed challenge agrees with `x` modulo 2^len_chall on one of the two codomain factors. -/
+
+def rawOfEnc (trl ha0 ha1 : Int) (M : Mat) (e : Enc) : SqiModel.Verify.RawSigH :=
+  ⟨true, false, trl, ha0, ha1, e.x, (hintB M : Int), e.b0, e.d0, e.b1, e.d1, e.c0a, e.e0a⟩
+
+theorem honest_accept_iff_heur (g : SqiModel.Verify.Lvl → SqiModel.Verify.RawPk → SqiModel.Verify.RawSigH → Bool)
+    (K : SqiModel.Verify.Lvl) (pk : SqiModel.Verify.RawPk) (o : SqiModel.Verify.OracleHeur)
+    (f a : Nat) (ha : 1 ≤ a) (M : Mat) (x trl ha0 ha1 : Int)
+    (h0 : M.m10 ≡ x * M.m00 [ZMOD 2 ^ a]) (h1 : M.m11 ≡ x * M.m01 [ZMOD 2 ^ a])
+    (hprim : ¬ (M.m00 % 2 = 0 ∧ M.m01 % 2 = 0 ∧ M.m10 % 2 = 0 ∧ M.m11 % 2 = 0)) :
+    let s := rawOfEnc trl ha0 ha1 M (encode f a M x)
+    SqiModel.Verify.verifyHeur g true K pk s o = true ↔
+      (g K pk s = true ∧ o.kerOk = true ∧ o.ordAll = true ∧ o.split = true ∧
+        (x % 2 ^ K.heurChall = o.h % 2 ^ K.heurChall ∨ x % 2 ^ K.heurChall = o.h2 % 2 ^ K.heurChall)) := by
+  intro s
+  have hb : s.hintB = 0 := by
+    show ((hintB M : Nat) : Int) = 0
+    rw [hint_b_zero_of_invariant a ha M x h0 h1 hprim]; rfl
+  rw [SqiProps.C02.accept_iff_heur, SqiProps.C02.challEqHeur_hintB0 K s o.h o.h2 hb]
+  rfl
 
 /-- non-vacuity: a level-1 signature produced by the real signer (seed 3, message seed 1; matrix and x read through
 hook H3s; m11 abbreviated, it is not used below): first-column invariant, `hint_b = 0`, `b0` as sent -/
